@@ -1153,8 +1153,8 @@ impl ConfigState {
         Ok(())
     }
 
-    /// - Remove old certificate from certificates, using the old fingerprint
     /// - calculate the new fingerprint
+    /// - Remove old certificate from certificates, using the old fingerprint
     /// - insert the new certificate with the new fingerprint as key
     /// - check that the new entry is present in the certificates hashmap
     fn replace_certificate(&mut self, replace: &ReplaceCertificate) -> Result<(), StateError> {
@@ -1164,6 +1164,12 @@ impl ConfigState {
                 .map_err(|decode_error| StateError::RemoveCertificate(decode_error.to_string()))?,
         );
 
+        let new_fingerprint = Fingerprint(
+            calculate_fingerprint(replace.new_certificate.certificate.as_bytes()).map_err(
+                |fingerprint_err| StateError::ReplaceCertificate(fingerprint_err.to_string()),
+            )?,
+        );
+
         self.certificates
             .get_mut(&replace_address)
             .ok_or(StateError::NotFound {
@@ -1171,12 +1177,6 @@ impl ConfigState {
                 id: replace.address.to_string(),
             })?
             .remove(&old_fingerprint);
-
-        let new_fingerprint = Fingerprint(
-            calculate_fingerprint(replace.new_certificate.certificate.as_bytes()).map_err(
-                |fingerprint_err| StateError::ReplaceCertificate(fingerprint_err.to_string()),
-            )?,
-        );
 
         self.certificates
             .get_mut(&replace_address)
